@@ -70,6 +70,12 @@ CLAIMS["C06"] = dict(
     technique=KANI + "; random stream replaced by symbolic words at Source::next_u64n",
     ref="DESIGN.md §5 C06",
 )
+CLAIMS["C02"] = dict(
+    text="The real poulpy-core GLWE operations (add/sub/negate/copy and their in-place forms incl. mixed plaintext/ciphertext ranks, rotation by X^k, (X^k-1), left/right shifts and their fused add/sub forms, same- and cross-radix normalisation) are run on a marker module with symbolic ciphertext limbs, symbolic prior result content and an exact-size symbolic scratch; the solver decides the column-wise statement that is equivalent, by linearity of the phase map in the columns, to 'phase(res) = OP(phase operands) for every secret': exact equality for the linear family, the one-unit torus relation per column for the shift/normalise family.",
+    note="Ring degree 2, ranks 0..2, limb counts 1..3 (calibrated: two-column 3-limb shift shapes exceed the memory cap), base2k 17 (12 as cross-radix target). The reduction phase-level <=> column-level is on paper (DESIGN C02-A2). GGSW forms and N>2 are outside.",
+    technique=KANI + "; real poulpy-core operations on a marker module, column-wise specification equivalent to the phase statement by linearity",
+    ref="DESIGN.md §5 C02",
+)
 NA = {}
 DEFAULT_NA = "not yet implemented in this revision (work in progress)"
 
